@@ -31,6 +31,11 @@ OWNED = {
     "C13": {"sm_behaviour", "exception", "hang"}, "C15": {"sm_behaviour", "exception", "hang"},
     "C19": {"exception", "hang"},
 }
+def _flit(d):
+    """source literal of a duration (NaN has no literal)"""
+    return repr(d) if d == d else "float('nan')"
+
+
 INTEGRATION = ("C01", "C02", "C03", "C04", "C13", "C15", "C19")
 
 HINTS = {
@@ -592,9 +597,9 @@ def _machine_states_source(prefix, machine, flavour):
         first = st["name"] == machine["first"]
         if st["kind"] == "timed":
             if flavour == "sm":
-                deco = f"@timed_state(duration={st['duration']!r}, next_state={st.get('next')!r}, first={first}, must_finish={bool(st.get('must_finish'))})"
+                deco = f"@timed_state(duration={_flit(st['duration'])}, next_state={st.get('next')!r}, first={first}, must_finish={bool(st.get('must_finish'))})"
             else:
-                deco = f"@sa_timed_state(duration={st['duration']!r}, next_state={st.get('next')!r}, first={first})"
+                deco = f"@sa_timed_state(duration={_flit(st['duration'])}, next_state={st.get('next')!r}, first={first})"
         elif st["kind"] == "default":
             deco = "@default_state"
         else:
